@@ -19,6 +19,9 @@ ModelValue(r) ==
 Why(r) ==
   LET m == ModelValue(r) IN
   IF ~("ok" \in DOMAIN r.out \/ "err" \in DOMAIN r.out) THEN "crash"
+  ELSE IF r.kind = "lex"                     \* what the text denotes is what the lexer model says: a parse error, or that value
+  THEN (IF m.bad THEN (IF "err" \in DOMAIN r.out /\ "stage" \in DOMAIN r.out /\ r.out.err.class = "parse" THEN "none" ELSE "accepted")
+        ELSE IF "err" \in DOMAIN r.out THEN "rejected" ELSE IF r.out.ok = m.v THEN "none" ELSE "value")
   ELSE IF r.kind = "bad"
   THEN (IF ~m.bad THEN "model"
         ELSE IF "err" \in DOMAIN r.out /\ "stage" \in DOMAIN r.out /\ r.out.err.class = "parse" THEN "none" ELSE "accepted")
@@ -27,7 +30,7 @@ Why(r) ==
         ELSE IF r.out.ok = r.want THEN "none" ELSE "value")
 
 Allowed(r) == Why(r) = "none"
-Expected(r) == [why |-> Why(r), want |-> r.want]
+Expected(r) == [why |-> Why(r), want |-> IF r.kind = "lex" THEN ModelValue(r) ELSE [v |-> r.want]]
 (* the recorded deviation: a JSON literal nested 128 levels or deeper is refused by the JSON layer *)
 Explains(r) ==
   IF "DEV_JSON_DEPTH_LIMIT_128" \in KnownDevs /\ Why(r) = "rejected" /\ r.kind = "lit" /\ NestDepth(r.text) >= 128
